@@ -264,7 +264,14 @@ class Sym(object):
         raise HarnessError('symbolic value used as index')
 
     def __round__(a, n=None):
-        raise HarnessError('round() of a symbolic value')
+        # round(x, n) modelled as floor(x*10^n + 1/2)/10^n (Python rounds half to even on the decimal expansion; the two
+        # differ only exactly at ties, which the concolic validation would flag)
+        if not _is0(a.k):
+            if not fork(kterm(a.k) == 0):
+                raise PathAbort('round(inf)')
+        sc = 10 ** (n or 0)
+        t = z3.ToReal(z3.ToInt(a.r * sc + z3.RealVal('1/2'))) / sc
+        return Sym(0, t)
 
     # --- arithmetic -------------------------------------------------
     def _addsub(a, b, sub):
@@ -839,7 +846,8 @@ class _Alarm(object):
     def __enter__(self):
         if self.seconds:
             self.old = signal.signal(signal.SIGALRM, self._fire)
-            signal.setitimer(signal.ITIMER_REAL, self.seconds)
+            # repeating: if the first expiry is swallowed (e.g. raised inside a callback that ignores exceptions) it fires again
+            signal.setitimer(signal.ITIMER_REAL, self.seconds, 5)
         return self
 
     def __exit__(self, *a):
